@@ -207,36 +207,44 @@ class Check:
 
     # ---- proof side
     def prove(self, module, theorems, generated=None):
-        """(re)generate, build the property module, audit axioms.  `generated`: dict relpath->text."""
+        """(re)generate, build the property module(s), audit axioms.
+        `module`/`theorems`: one module with its statements of record, or a list of (module, theorems) pairs (each
+        built and audited on its own, so that a broken tie module does not hide the model theorems).
+        `generated`: dict relpath->text written before building."""
         for rel, text in (generated or {}).items():
             write_if_changed(os.path.join(LEAN, rel), text)
-        ok, log = lake_build([module])
+        groups = module if isinstance(module, list) else [(module, theorems)]
         self.checker_cmd = 'cd lean && lake build %s && lake env lean <audit: #print axioms for %d statements>' % (
-            module, len(theorems))
-        self.extra['build_ok'] = ok
-        if not ok:
-            errs = [l for l in log.split('\n') if 'error' in l][:20]
-            self.extra['build_errors'] = errs
-            self.notes.append('lake build failed: ' + ' | '.join(errs[:5]))
-        files = list(module_deps(module).values())
-        hits = grep_forbidden(files)
-        if hits:
-            self.broken.append('forbidden-construct: ' + '; '.join(hits[:5]))
-        res, out = ({t: None for t in theorems}, '') if not ok else audit_axioms(module, theorems)
+            ' '.join(m for m, _ in groups), sum(len(t) for _, t in groups))
         axioms_seen = set()
-        for t in theorems:
-            ax = res.get(t)
-            if ax is None:
-                self.obligations.append((t, 'unproved', []))
-                self.broken.append('theorem ' + t)
-            elif set(ax) - ALLOWED_AXIOMS:
-                self.obligations.append((t, 'bad-axioms', ax))
-                self.broken.append('theorem %s depends on %s' % (t, sorted(set(ax) - ALLOWED_AXIOMS)))
-            else:
-                self.obligations.append((t, 'ok', ax))
-                axioms_seen |= set(ax)
+        all_ok = True
+        self.extra['build_ok'] = True
+        for mod, ths in groups:
+            ok, log = lake_build([mod])
+            if not ok:
+                all_ok = False
+                self.extra['build_ok'] = False
+                errs = [l for l in log.split('\n') if 'error' in l][:20]
+                self.extra.setdefault('build_errors', []).extend(errs)
+                self.notes.append('lake build %s failed: %s' % (mod, ' | '.join(errs[:5])))
+            files = list(module_deps(mod).values())
+            hits = grep_forbidden(files)
+            if hits:
+                self.broken.append('forbidden-construct: ' + '; '.join(hits[:5]))
+            res, out = ({t: None for t in ths}, '') if not ok else audit_axioms(mod, ths)
+            for t in ths:
+                ax = res.get(t)
+                if ax is None:
+                    self.obligations.append((t, 'unproved', []))
+                    self.broken.append('theorem ' + t)
+                elif set(ax) - ALLOWED_AXIOMS:
+                    self.obligations.append((t, 'bad-axioms', ax))
+                    self.broken.append('theorem %s depends on %s' % (t, sorted(set(ax) - ALLOWED_AXIOMS)))
+                else:
+                    self.obligations.append((t, 'ok', ax))
+                    axioms_seen |= set(ax)
         self.extra['axioms'] = sorted(axioms_seen)
-        return ok and not self.broken
+        return all_ok and not self.broken
 
     def leanchecker(self, modules):
         with LeanLock():
